@@ -558,7 +558,8 @@ def run(ctx):
     rule_mpc(ctx, repo, models)
     rule_mpc_branch(ctx, repo)
     rule_mpc_lexer(ctx, repo)
-    from rules import c13_numtype, c13_sysbase
+    from rules import c13_numtype, c13_sysbase, c13_3w
+    c13_3w.run_rule(ctx, repo)
     ctx.rule("C13.numeric-type", "data corrections independent of the numeric representation (int / float / NumPy scalar)", 1)
     c13_numtype.run_rule(ctx, repo)
     c13_sysbase.run_rule(ctx, repo)
